@@ -204,8 +204,8 @@ type endpoint struct {
 	okT       []int64
 	slowest   time.Duration // longest time between a request's arrival and its 200 being flushed
 	listenErr string
-	closed    bool   // closed for good
-	force     string // when set, every request gets this action and the script is not consumed
+	closed    bool          // closed for good
+	force     string        // when set, every request gets this action and the script is not consumed
 	gate      chan struct{} // closed by the test to release requests whose action has Hold
 }
 
